@@ -1,0 +1,98 @@
+//go:build verif
+
+// Contracts for the deductive verifier in /verif (govc). Comment-only.
+// The sink of a bit writer is an io.Writer whose ghost view (out, n) is the byte sequence
+// written so far (contract in /verif/contracts/external/io.spec).
+
+package bit
+
+//@ # ---- bit writer (C14) ---------------------------------------------------------------------------
+//@ # count = free bits of the pending byte (8 = empty); the free (low) bits of the pending byte are zero
+//@ predicate wOK(w *Writer) bool = w.w != nil && w.count >= 1 && w.count <= 8 && (w.b[0] & ((uint8(1) << w.count) - 1)) == 0
+//@ # view: the bit sequence written so far = bits of the emitted bytes followed by the used (high) bits of the pending byte
+//@ predicate wlen(w *Writer) int = w.w.n * 8 + (8 - int(w.count))
+//@ pure bitOf(out map[int]byte, n int, b0 byte, i int) bool = ite(i < n * 8, (out[i / 8] >> uint(7 - i % 8)) & 1 == 1, (b0 >> uint(7 - (i - n * 8))) & 1 == 1)
+//@ predicate wbitAt(w *Writer, i int) bool = bitOf(w.w.out, w.w.n, w.b[0], i)
+//@ pure ubit(u uint64, k int) bool = (u >> uint(k)) & 1 == 1
+//@ pure bbit(b byte, k int) bool = (b >> uint(k)) & 1 == 1
+//@ lemma byte_of_shifted bv prop C14: all(u0, "uint64", all(nb, "int", all(j, "int", (nb >= 8 && nb <= 64 && j >= 0 && j < 8) ==> bbit(uint8((u0 << uint(64 - nb)) >> 56), 7 - j) == ubit(u0, nb - 1 - j))))
+//@ lemma top_bit_of_shifted bv prop C14: all(u0, "uint64", all(nb, "int", (nb >= 1 && nb <= 64) ==> (((u0 << uint(64 - nb)) >> 63) == 1) == ubit(u0, nb - 1)))
+//@ predicate wSane(w *Writer) bool = wOK(w) && w.w.n >= 0 && w.w.n <= 72057594037927936
+//@ func Writer.Reset
+//@   prop C14
+//@   modifies w.w, w.b, w.count
+//@   ensures[pooled_reuse_starts_clean] w.w == writer && w.b[0] == 0 && w.count == 8
+//@ end
+//@ func Writer.WriteBit
+//@   prop C14
+//@   requires wSane(w) && w.w.n < 72057594037927936
+//@   modifies w.b, w.count, w.w.out, w.w.n
+//@   ensures[bit_goes_to_next_free_position] (result == nil && old(w.count) > 1) ==> (w.count == old(w.count) - 1 && w.b[0] == old(w.b[0]) | ite(bit, uint8(1) << (old(w.count) - 1), uint8(0)) && w.w.n == old(w.w.n) && w.w.out == old(w.w.out))
+//@   ensures[full_byte_is_emitted] (result == nil && old(w.count) == 1) ==> (w.count == 8 && w.b[0] == 0 && w.w.n == old(w.w.n) + 1 && w.w.out[old(w.w.n)] == old(w.b[0]) | ite(bit, uint8(1), uint8(0)))
+//@   ensures[earlier_output_untouched] all(i, (i >= 0 && i < old(w.w.n)) ==> w.w.out[i] == old(w.w.out)[i])
+//@   ensures result == nil ==> wSane(w)
+//@   ensures[appends_one_bit] result == nil ==> (wlen(w) == old(wlen(w)) + 1 && wbitAt(w, old(wlen(w))) == bit)
+//@   ensures[earlier_bits_kept] result == nil ==> all(i, (i >= 0 && i < old(wlen(w))) ==> wbitAt(w, i) == old(wbitAt(w, i)))
+//@ end
+//@ func Writer.WriteByte
+//@   prop C14
+//@   requires wSane(w) && w.w.n < 72057594037927936
+//@   modifies w.b, w.w.out, w.w.n
+//@   ensures[emits_pending_bits_then_high_bits] result == nil ==> (w.w.n == old(w.w.n) + 1 && w.w.out[old(w.w.n)] == old(w.b[0]) | (b >> (8 - w.count)))
+//@   ensures[keeps_low_bits_pending] result == nil ==> (w.count == old(w.count) && w.b[0] == b << w.count)
+//@   ensures[earlier_output_untouched] all(i, (i >= 0 && i < old(w.w.n)) ==> w.w.out[i] == old(w.w.out)[i])
+//@   ensures result == nil ==> wSane(w)
+//@   ensures[appends_eight_bits] result == nil ==> (wlen(w) == old(wlen(w)) + 8 && forall(p, old(wlen(w)), old(wlen(w)) + 8, wbitAt(w, p) == bbit(b, 7 - (p - old(wlen(w))))))
+//@   ensures[earlier_bits_kept] result == nil ==> all(i, (i >= 0 && i < old(wlen(w))) ==> wbitAt(w, i) == old(wbitAt(w, i)))
+//@ end
+//@ # low numBits bits of u, most significant first
+//@ func Writer.WriteBits
+//@   prop C14
+//@   opaque bitOf
+//@   note the bit relations between u and the bytes written are discharged by bit-vector reasoning
+//@   requires wSane(w) && w.w.n < 72057594037927900 && numBits >= 0 && numBits <= 64
+//@   modifies w.b, w.count, w.w.out, w.w.n
+//@   ensures[appends_low_bits_msb_first] result == nil ==> (wlen(w) == old(wlen(w)) + numBits && forall(p, old(wlen(w)), old(wlen(w)) + numBits, wbitAt(w, p) == ubit(u, numBits - 1 - (p - old(wlen(w))))))
+//@   ensures[earlier_bits_kept] result == nil ==> all(i, (i >= 0 && i < old(wlen(w))) ==> wbitAt(w, i) == old(wbitAt(w, i)))
+//@   ensures result == nil ==> wSane(w)
+//@   loop 1 invariant numBits >= 0 && numBits <= numBits0 && wSane(w) && w.w.n <= old(w.w.n) + 8 && wlen(w) == old(wlen(w)) + (numBits0 - numBits) && u == u0 << uint(64 - numBits)
+//@   loop 1 invariant forall(p, old(wlen(w)), old(wlen(w)) + (numBits0 - numBits), wbitAt(w, p) == ubit(u0, numBits0 - 1 - (p - old(wlen(w)))))
+//@   loop 1 invariant all(i, (i >= 0 && i < old(wlen(w))) ==> wbitAt(w, i) == old(wbitAt(w, i)))
+//@   loop 2 invariant numBits >= 0 && numBits <= numBits0 && numBits < 8 && wSane(w) && w.w.n <= old(w.w.n) + 9 && wlen(w) == old(wlen(w)) + (numBits0 - numBits) && u == u0 << uint(64 - numBits)
+//@   loop 2 invariant forall(p, old(wlen(w)), old(wlen(w)) + (numBits0 - numBits), wbitAt(w, p) == ubit(u0, numBits0 - 1 - (p - old(wlen(w)))))
+//@   loop 2 invariant all(i, (i >= 0 && i < old(wlen(w))) ==> wbitAt(w, i) == old(wbitAt(w, i)))
+//@ end
+//@ func Writer.Flush
+//@   prop C14
+//@   requires wOK(w)
+//@   modifies w.w.out, w.w.n
+//@   ensures[pending_byte_written] (result == nil && w.count != 8) ==> (w.w.n == old(w.w.n) + 1 && w.w.out[old(w.w.n)] == w.b[0])
+//@   ensures[nothing_pending_nothing_written] w.count == 8 ==> (result == nil && w.w.n == old(w.w.n) && w.w.out == old(w.w.out))
+//@   ensures[earlier_output_untouched] all(i, (i >= 0 && i < old(w.w.n)) ==> w.w.out[i] == old(w.w.out)[i])
+//@ end
+
+//@ # ---- bit reader -------------------------------------------------------------------------------------
+//@ predicate rOK(r *Reader) bool = r.buf != nil && bufioutil.bufOK(r.buf) && r.count <= 8
+//@ func Reader.Reset
+//@   prop C14
+//@   modifies r.err, r.count, r.b
+//@   ensures[pooled_reuse_starts_clean] r.err == nil && r.count == 0 && r.b == 0
+//@ end
+//@ func Reader.ReadBit
+//@   prop C14
+//@   requires rOK(r)
+//@   modifies r.b, r.count, r.err, r.buf.index
+//@   ensures[next_bit_of_pending_byte] old(r.count) > 0 ==> (result0 == ((old(r.b) & 128) != 0) && r.b == old(r.b) << 1 && r.count == old(r.count) - 1 && r.buf.index == old(r.buf.index))
+//@   ensures[fetches_next_byte_when_empty] (old(r.count) == 0 && old(r.buf.index) < r.buf.length) ==> (result0 == ((r.buf.buf[old(r.buf.index)] & 128) != 0) && r.b == r.buf.buf[old(r.buf.index)] << 1 && r.count == 7 && r.buf.index == old(r.buf.index) + 1 && result1 == nil)
+//@   ensures[end_of_data_is_an_error] (old(r.count) == 0 && old(r.buf.index) >= r.buf.length) ==> result1 != nil
+//@   ensures rOK(r)
+//@ end
+//@ func Reader.ReadByte
+//@   prop C14
+//@   requires rOK(r) && r.count < 8
+//@   modifies r.b, r.err, r.buf.index
+//@   ensures[aligned_read] (old(r.count) == 0 && old(r.buf.index) < r.buf.length) ==> (result0 == r.buf.buf[old(r.buf.index)] && result1 == nil && r.buf.index == old(r.buf.index) + 1)
+//@   ensures[unaligned_read_joins_two_bytes] (old(r.count) > 0 && old(r.buf.index) < r.buf.length) ==> (result0 == old(r.b) | (r.buf.buf[old(r.buf.index)] >> r.count) && r.b == r.buf.buf[old(r.buf.index)] << (8 - r.count) && result1 == nil && r.buf.index == old(r.buf.index) + 1)
+//@   ensures[end_of_data_is_an_error] old(r.buf.index) >= r.buf.length ==> result1 != nil
+//@   ensures r.count == old(r.count) && rOK(r)
+//@ end
